@@ -128,8 +128,9 @@ Proof. vm_compute. repeat split; reflexivity. Qed.
    frun info k0 ops: any history of successful, refused and failed (write or fsync)
    appends / force-seals from init_empty on a file of zeros.  fs_sync: the file as of the
    last successful fsync; fs_pw: the writes issued since (all of them belong to failed
-   operations); torn_writes: they reach the disk one after the other, each torn per
-   8-byte chunk over what is there.  fs_bs: the acknowledged batches; fs_pend: the
+   operations, complete or SHORT: a short write puts the first half of its bytes);
+   torn_writes: they reach the disk one after the other, each torn per 8-byte chunk
+   over what is there (torn_part: the last chunk of a short write may be partial).  fs_bs: the acknowledged batches; fs_pend: the
    batches of the writes that failed since the last success.  Recovery of EVERY such
    durable image returns the writer of the acknowledged batches, or of those plus ONE
    batch of fs_pend whose bytes are completely on the disk: nothing of a batch that
